@@ -86,6 +86,9 @@ def parseBuild (tok : String) : Option C16.Build :=
   match fields tok with
   | ["n", f, t, s] => some (.nums (toInt f) (toInt t) (toInt s))
   | ["a", f, t, s] => some (.nums (toInt f) (toInt t) (toInt s))
+  -- an object that held (and was asked about) another range before: what it was is of no consequence
+  | ["q", _, _, _, f, t, s] => some (.nums (toInt f) (toInt t) (toInt s))
+  | ["qs", _, _, _, x, s] => some (.text (unhex x) (toInt s))
   | ["s", x, s] => some (.text (unhex x) (toInt s))
   | ["c", f, t, s, s'] => some (.resize (toInt f) (toInt t) (toInt s) (toInt s'))
   | ["d"] => some (.text [] (-1))
